@@ -31,7 +31,7 @@ def run(ctx):
             V.reject({"kind": "scripted", "reason": b["reason"]}, {"event": b["event"]})
         elif b["reason"] == "model-drift":
             drift += 1
-    rst, rbad = pc.real_run(ctx, binp, wd, "dec", 40000 if quick else 3000000, nproc=8 if quick else 14)
+    rst, rbad = pc.real_run(ctx, binp, wd, "dec", 40000 if quick else 3000000, nproc=8 if quick else 14, enum_stride=6 if quick else 1)
     for b in rbad:
         if b["reason"] in ("panic", "error-laws", "error-layer-depends-on-first-accessor", "hang", "crash"):
             d = pc.sig_dict(b)
